@@ -197,7 +197,9 @@ class GlsaDirSet(GenericEquality):
                     f"range {op} version {node.text.strip()} is a guaranteed empty set"
                 )
             elif op == "rle":  # rle -r0 -> = -r0
-                restrictions.append(atom_restricts.VersionMatch("=", base.version))
+                restrictions.append(
+                    atom_restricts.VersionMatch("=", base.version, rev=base.revision)
+                )
             elif op == "rge":  # rge -r0 -> ~
                 restrictions.append(atom_restricts.VersionMatch("~", base.version))
         else:
